@@ -230,9 +230,23 @@ def control_program(draw):
             routines[nm]['nest'] = draw(st.integers(1, 2))
         top.append(['play', nm, draw(st.sampled_from(refs)),
                     draw(st.sampled_from([0, 0, None, [1, 0], [2, 0.5]]))])
+    on_tempo = [(op[1], op[2]) for op in top if isinstance(op[2], int)
+                and not any(o[0] in ('cwait', 'fwait')
+                            for o in routines[op[1]]['body'])]
     for i in range(nc):
         body = [['wait', 0.0625]]
         elapsed = 0.0625
+        if on_tempo and draw(st.integers(0, 3)) == 0:
+            # a pending wake-up is moved (pause + resume), then its clock's
+            # tempo changes before it fires
+            tgt, c = draw(st.sampled_from(on_tempo))
+            for op in (['pause', tgt], ['resume', tgt],
+                       ['tempo', c, draw(st.sampled_from([0.5, 1, 2, 2]))]):
+                body.append(op)
+                body.append(['log', nxt()])
+                w = draw(st.sampled_from([0.125, 0.125, 0.25]))
+                elapsed += w
+                body.append(['wait', w])
         for _ in range(draw(st.integers(1, 8))):
             k = draw(st.integers(0, 13))
             tgt = draw(st.sampled_from(targets))
